@@ -2,21 +2,18 @@ SPECIFICATION Spec
 CONSTANTS
   N = 3
   Refs = {"a", "b"}
-  MaxDepth = 5
+  MaxDepth = 6
   MaxPacks = 2
   WithCopies = TRUE
   WithIdx = FALSE
   MidxChecksPack = TRUE
   CgChecksStore = TRUE
   CgWriterCloses = TRUE
-  BitmapChecksum = TRUE
+  BitmapChecksum = FALSE
   BitmapClosedPack = TRUE
   BitmapExcludeExact = TRUE
   ProvidersAgree = TRUE
   DeleteDropsPacked = TRUE
 INVARIANT TypeOK
 INVARIANT Transparent
-INVARIANT Exact
-INVARIANT RefsTransparent
-INVARIANT StaleRejected
 CHECK_DEADLOCK FALSE
